@@ -28,17 +28,22 @@ def aff_time_all(check):
         loc = stepf.loc() if stepf else c.loc()
         try:
             ai, outs = run_step(proj, c, 2)
+            outs = [(o, "") for o in outs]
         except AnalysisError as e:
-            check.failed("AFF-TIME-ALL", q, e, loc, "abstract interpretation failed")
-            continue
+            if getattr(e, "paths", None):
+                # step() branches on the values it is given: the time clause is decided on each path separately
+                outs = [(o, " on the path [%s]" % "; ".join(log)) for pol, os_, log in e.paths for o in os_]
+            else:
+                check.failed("AFF-TIME-ALL", q, e, loc, "abstract interpretation failed")
+                continue
         seen = set()
-        for o in outs:
-            ts = o["typestate"]
+        for o, path in outs:
+            ts = (o["typestate"], path)
             if ts in seen:
                 continue
             seen.add(ts)
             adv = o["field"].time.s
-            where = "%s [%s]" % (q, ts)
+            where = "%s [%s]%s" % (q, ts[0], path)
             if adv.poly == {1: Fraction(1)} and adv.kinds == frozenset({"min"}):
                 check.ok("AFF-TIME-ALL", where, "one step(f, dt) leaves f.time = t + 1*min(dt)", loc)
             else:
